@@ -61,6 +61,27 @@ pub fn inputs(seed: u64, tier: Tier) -> Vec<In> {
     }
     // invalid neighbours: truncations and substitutions at spread positions
     let mut all: Vec<In> = Vec::new();
+    // invalid XZ files whose enclosing CRCs are CORRECT (only the field's own validation can object): padding bytes,
+    // sizes, counts - decisions that are taken from the currently visible buffer
+    {
+        let blocks: Vec<Block> = (0..2)
+            .map(|b| {
+                let (p, plain) = payload(b % 3, (b + 1) % 4, b + 5);
+                Block { payload: p, plain, with_csize: true, with_usize: true, extra_pad4: 4, ..Default::default() }
+            })
+            .collect();
+        let f = XzFile { check_id: 1, blocks, ..Default::default() };
+        let keep = ["padding", "record count", "appended", "index indicator", "declared"];
+        let mut k = 0usize;
+        for (what, g) in super::c06::field_mutants(&f) {
+            if keep.iter().any(|w| what.contains(w)) {
+                k += 1;
+                if what.contains("padding") || k % tier.pick(9, 3) == 0 {
+                    all.push(In { label: format!("xz CRC-repaired mutant: {}", what), fmt: Fmt::Xz, opts: Opts::default(), bytes: xz::build(&g).0 });
+                }
+            }
+        }
+    }
     for v in valid {
         let n = v.bytes.len();
         let npos = tier.pick(5usize, 12usize);
